@@ -371,6 +371,56 @@ func runLayoutTies(c *hx.Ctx, idx int) {
 	c.Case(fmt.Sprint("ties", idx), true)
 }
 
+// runUndeclaredFont: a page selects (Tf) a font name its resources do not declare while
+// declaring two other fonts that decode the shown bytes differently; whatever the library
+// does for the undeclared name, it must do the same on every run.
+func runUndeclaredFont(c *hx.Ctx, idx int) {
+	r := hx.NewRng(c.Seed ^ 0x0fd0).Fork(uint64(idx))
+	encs := []string{"WinAnsiEncoding", "MacRomanEncoding", "StandardEncoding", "PDFDocEncoding"}
+	hx.Shuffle(r, encs)
+	p := writers.NewPDF("\n")
+	e := map[int]writers.XEntry{0: {Type: 0, F2: 65535}}
+	e[1] = writers.XEntry{Type: 1, F1: p.Obj(1, 0, "<< /Type /Catalog /Pages 2 0 R >>")}
+	e[2] = writers.XEntry{Type: 1, F1: p.Obj(2, 0, "<< /Type /Pages /Kids [3 0 R] /Count 1 >>")}
+	nf := r.Range(2, 4)
+	var fd strings.Builder
+	for i := 0; i < nf; i++ {
+		fmt.Fprintf(&fd, "/F%d %d 0 R ", i+1, 10+i)
+		e[10+i] = writers.XEntry{Type: 1, F1: p.Obj(10+i, 0, fmt.Sprintf("<< /Type /Font /Subtype /Type1 /BaseFont /%s /Encoding /%s >>", hx.Pick(r, []string{"Helvetica", "Times-Roman", "Courier"}), encs[i%len(encs)]))}
+	}
+	e[3] = writers.XEntry{Type: 1, F1: p.Obj(3, 0, "<< /Type /Page /Parent 2 0 R /MediaBox [0 0 612 792] /Resources << /Font << "+fd.String()+">> >> /Contents 5 0 R >>")}
+	body := "BT /F1 12 Tf 72 720 Td (declared \\351\\212) Tj /Fx9 12 Tf 0 -20 Td (caf\\351 \\212\\320\\244 undeclared) Tj ET"
+	e[5] = writers.XEntry{Type: 1, F1: p.Stream(5, "", []byte(body), 0)}
+	p.XrefTable(e, "/Root 1 0 R /Size 20", -1, " \n")
+	path := filepath.Join(c.OutDir, fmt.Sprintf("c03-undeclared-%d.pdf", idx))
+	os.WriteFile(path, p.Buf.Bytes(), 0o644)
+	defer os.Remove(path)
+	k := map[string]interface{}{"undeclared-font": idx, "seed": c.Seed}
+	seen := map[string]int{}
+	c.Guard("C03/undeclared-font", k, 60, func() {
+		for rep := 0; rep < 48; rep++ {
+			t, _, _ := tabula.Open(path).Text()
+			fr, _, _ := tabula.Open(path).Fragments()
+			var sb strings.Builder
+			sb.WriteString(t)
+			for _, f := range fr {
+				sb.WriteString("|" + f.Text)
+			}
+			seen[sb.String()]++
+		}
+	})
+	c.Check("C03/repeat-differs", len(seen) == 1, k, func() string {
+		var ex []string
+		for v, cnt := range seen {
+			ex = append(ex, fmt.Sprintf("%dx %q", cnt, truncate(v, 120)))
+		}
+		sort.Strings(ex)
+		return fmt.Sprintf("48 extractions of a page that selects an undeclared font beside %d declared ones gave %d different results: %s", nf, len(seen), strings.Join(ex, " | "))
+	})
+	c.Count("undeclared-font")
+	c.Case(fmt.Sprint("undeclared", idx), true)
+}
+
 func truncate(s string, n int) string {
 	if len(s) > n {
 		return s[:n] + "…"
@@ -509,6 +559,9 @@ func Run(c *hx.Ctx) {
 	}
 	for i := 0; i < c.N(12, 150); i++ {
 		runLayoutTies(c, i)
+	}
+	for i := 0; i < c.N(10, 150); i++ {
+		runUndeclaredFont(c, i)
 	}
 }
 
